@@ -256,7 +256,7 @@ pub fn run(p: &Params) -> Run {
     }
 
     // random schedules
-    let n = p.n(2600, 100_000);
+    let n = p.n(12_000, 100_000);
     for i in 0..n {
         let head = rng.chance(1, 2);
         let cap = *rng.pick(&CAPS);
@@ -268,7 +268,7 @@ pub fn run(p: &Params) -> Run {
     }
 
     // lines longer than the reader's buffer, also for the large capacities
-    let n_long = p.n(60, 1500);
+    let n_long = p.n(200, 1500);
     for _ in 0..n_long {
         let head = rng.chance(1, 2);
         let cap = *rng.pick(&[8usize, 64, 64, 8192, 8192]);
